@@ -150,10 +150,10 @@ theorem prod_map_no_hole (ds : List Int) (q : Nat) (h : (ds.filter (fun d => d =
   | nil => rfl
   | cons d ds ih =>
     by_cases hd : (d == -1) = true
-    · simp [List.filter_cons, hd] at h
+    · simp [hd] at h
     · have hd' : (d != -1) = true := by simpa [bne] using hd
-      simp only [List.filter_cons, hd, if_false] at h
-      simp only [List.map_cons, hd, if_false, List.filter_cons, hd', if_true, prod, ih h]
+      simp only [List.filter_cons, hd] at h
+      simp only [List.map_cons, hd, List.filter_cons, hd', if_true, prod, ih h]
       simp
 
 theorem prod_map_one_hole (ds : List Int) (q : Nat) (h : (ds.filter (fun d => d == -1)).length = 1) :
@@ -168,8 +168,8 @@ theorem prod_map_one_hole (ds : List Int) (q : Nat) (h : (ds.filter (fun d => d 
       simp only [List.map_cons, hd, if_true, List.filter_cons, hd', prod, prod_map_no_hole ds q h]
       simp
     · have hd' : (d != -1) = true := by simpa [bne] using hd
-      simp only [List.filter_cons, hd, if_false] at h
-      simp only [List.map_cons, hd, if_false, List.filter_cons, hd', if_true, prod, ih h]
+      simp only [List.filter_cons, hd] at h
+      simp only [List.map_cons, hd, List.filter_cons, hd', if_true, prod, ih h]
       simp only [Bool.false_eq_true, if_false]
       ring
 
